@@ -155,8 +155,13 @@ def mutate_attr(
     # If not inplace, copy before writing new value for attribute
     copied = False
     if not (inplace or metadata and metadata.do_not_copy):
+        current = getattr(obj, "__dict__", {}).get(attr, MISSING)
         obj = copy.deepcopy(obj)
         copied = True
+        if value is current:
+            # The object currently held by the attribute was copied along with
+            # the instance; storing the original would share it with the copy.
+            value = getattr(obj, "__dict__", {}).get(attr, value)
 
     with _thawed(obj, thaw=copied):
         # Perform actual mutation
